@@ -164,7 +164,9 @@ func (b builder) body(v int, seed int64, inline bool, refsLeft int) *boc.Cell {
 func (b builder) stateInit(r *rand.Rand, inline bool) tlb.StateInit {
 	var s tlb.StateInit
 	if r.Intn(2) == 0 {
-		s.SplitDepth = tlb.Maybe[tlb.Uint5]{Exists: true, Value: tlb.Uint5(r.Intn(32))}
+		// (set through reflection: the harness must keep compiling when the field's integer type changes)
+		s.SplitDepth.Exists = true
+		reflect.ValueOf(&s.SplitDepth.Value).Elem().SetUint(uint64(r.Intn(32)))
 	}
 	if r.Intn(2) == 0 {
 		s.Special = tlb.Maybe[tlb.TickTock]{Exists: true, Value: tlb.TickTock{Tick: r.Intn(2) == 0, Tock: r.Intn(2) == 0}}
